@@ -167,6 +167,77 @@ func runC08(c c08Case, r *rep.Report) (key, msg string, stats map[string]int64) 
 				}
 				time.Sleep(upTimeout + 50*time.Millisecond)
 				rig.Wait()
+			case "retry-within-timeout":
+				// candidate 1 fails; candidate 2 starts while candidate 1's upgrade timer is still
+				// armed and is still in progress when that timer's instant passes; candidate 3 then
+				// must be refused and candidate 2 must still be able to complete
+				c1 := w.Candidate(sid, 4)
+				if c1.DialCandidateWS() != nil {
+					key, msg = "c08-candidate-refused", "first candidate refused"
+					return
+				}
+				time.Sleep(time.Millisecond)
+				c1.WSWriteRaw(false, []byte("4oops"))
+				time.Sleep(upTimeout / 2)
+				rig.Wait()
+				c2 := w.Candidate(sid, 4)
+				if err := c2.DialCandidateWS(); err != nil {
+					key, msg = "c08-later-upgrade-refused", "a candidate after a failed one was refused: " + err.Error()
+					return
+				}
+				time.Sleep(time.Millisecond)
+				c2.WSWriteRaw(false, []byte("2probe"))
+				time.Sleep(time.Millisecond)
+				rig.Wait()
+				if mt, d, err := c2.WS.ReadMessage(); err != nil || mt != 1 || string(d) != "3probe" {
+					key, msg = "c08-conformant-upgrade-not-completed", fmt.Sprintf("second candidate's probe not answered: %v %q", err, d)
+					return
+				}
+				// pass the instant at which candidate 1's timer would have fired
+				time.Sleep(upTimeout/2 + 20*time.Millisecond)
+				rig.Wait()
+				stats["retry_within_timeout_cases"]++
+				if !sock.Upgrading() {
+					key, msg = "c08-upgrading-mark-lost", "while the second candidate is being entertained (probe answered, upgrade timeout not reached) the session no longer reports Upgrading() - a timer of the failed first candidate fired"
+					return
+				}
+				c3 := w.Candidate(sid, 4)
+				if c3.DialCandidateWS() == nil {
+					time.Sleep(time.Millisecond)
+					c3.WSWriteRaw(false, []byte("2probe"))
+					time.Sleep(2 * time.Millisecond)
+					rig.Wait()
+					c3.WS.SetReadDeadline(time.Now().Add(time.Millisecond))
+					if mt, d, err := c3.WS.ReadMessage(); err == nil && mt == 1 && string(d) == "3probe" {
+						key, msg = "c08-two-candidates-entertained", "a third candidate was answered with a probe pong while the second is being entertained"
+						return
+					}
+				}
+				cl.Pause()
+				c2.WSWriteRaw(false, []byte("5"))
+				time.Sleep(5 * time.Millisecond)
+				rig.Wait()
+				if n := len(w.Tap.Of(sid, "upgrade")); n != 1 || !sock.Upgraded() || sock.Transport().Name() != "websocket" {
+					key, msg = "c08-conformant-upgrade-not-completed", fmt.Sprintf("retry within the first candidate's timeout: upgrade events %d, Upgraded()=%v, transport %s", n, sock.Upgraded(), sock.Transport().Name())
+					return
+				}
+				c2.Cfg.Transport = "websocket"
+				c2.StartReader()
+				sock.Send(types.NewStringBufferString("after-retry"), nil, nil)
+				time.Sleep(upTimeout + 100*time.Millisecond)
+				rig.Wait()
+				ok := false
+				for _, m := range c2.Messages() {
+					if string(m.P.Data) == "after-retry" {
+						ok = true
+					}
+				}
+				if !ok || sock.ReadyState() != "open" {
+					key, msg = "c08-upgraded-session-unusable", fmt.Sprintf("after a retry upgrade: message delivered %v, session %s", ok, sock.ReadyState())
+					return
+				}
+				c2.Stop()
+				return
 			case "probe-before-listeners":
 				// the probe is on the wire before the session has attached its listeners
 				w.Gate.Arm("socket.MaybeUpgrade.enter", 1)
@@ -490,7 +561,7 @@ func TestC08(t *testing.T) {
 	}
 	ng := r.N(24, 800)
 	for k := 0; k < ng; k++ {
-		for _, lane := range []string{"two-candidates", "probe-before-listeners"} {
+		for _, lane := range []string{"two-candidates", "probe-before-listeners", "retry-within-timeout"} {
 			c := c08Case{Lane: lane, Candidate: "websocket"}
 			key, msg, stats := runC08(c, r)
 			r.Case("gate/"+lane, true)
